@@ -38,6 +38,14 @@ def showOut : Out Cid → String
   | .data d => showData d
   | .bytes b => hex b
   | .nat n => toString n
+  | .names ns => "[" ++ " ".intercalate (ns.map hex) ++ "]"
+  | .json _ _ => "ok"
+  | .pbnode ls d => s!"links={showLinks ls} data={showData d}"
+  | .stat (nl, bs, lsz, ds, cum) c =>
+    let id := match c with
+      | some (k, e) => s!"k={k} enc={hex e}"
+      | none => "undef"
+    s!"n={nl} block={bs} links={lsz} data={ds} cum={cum} {id}"
   | .cid none => "undef"
   | .cid (some (k, e)) => s!"k={k} enc={hex e}"
 
@@ -51,6 +59,19 @@ def parseOp : List String → Option (Op Nat)
   | ["setdata", d] => (parseData d).map .setData
   | ["setbuilder", "nil"] => some (.setBuilder none)
   | ["setbuilder", k] => k.toNat?.map fun k => .setBuilder (some k)
+  | ["tree"] => some .tree
+  | ["mjson"] => some .marshalJSON
+  | ["getpb"] => some .getPBNode
+  | ["stat"] => some .stat
+  | ["reloadblock"] => some .reloadBlock
+  | "ujson" :: d :: ts => do
+    let d ← parseData d
+    let ls ← ts.mapM fun (t : String) => match t.splitOn ":" with
+      | [n, c, s] => parseLink n c s
+      | _ => none
+    pure (.unmarshalJSON d ls)
+  | ["addnode", n, c, s, _] => (parseLink n c s).map .addLink
+  | ["updlink", n, c, s, _] => (parseLink n c s).map .updateNodeLink
   | ["copy"] => some .copy
   | ["reload"] => some .reload
   | ["links"] => some .links
